@@ -553,9 +553,10 @@ func c16direct(c *runner.Ctx, i int) {
 		c.Add("steps", 1)
 		c16quiesce(sess, m)
 		probs := c16verify(sess, m, pol)
-		if len(probs) > 0 {
-			// a mismatch counts only if it persists
-			time.Sleep(150 * time.Millisecond)
+		for retry := 0; retry < 2 && len(probs) > 0; retry++ {
+			// a mismatch counts only if it persists: genuine defects stay, reconnects in flight settle
+			c.Add("rechecks_after_transient_mismatch", 1)
+			time.Sleep(time.Duration(150+850*retry) * time.Millisecond)
 			c16quiesce(sess, m)
 			probs = c16verify(sess, m, pol)
 		}
